@@ -1093,10 +1093,18 @@ def prop_pickle_reaction(ch, ctx):
     n = len(names)
     rows = [ch.flows(f'feed{i}', n) for i in range(len(phases) if phases else 1)]
     feed = np.array(rows if phases else rows[0], float) + 1.0
-    a = feed.copy(); b = feed.copy()
-    ctx.call('pickle.reaction.react', r.force_reaction, a, region=region)
-    ctx.call('pickle.reaction.react', o.force_reaction, b, region=region)
-    ctx.check(np.array_equal(a, b), f'pickle.reaction|{region}|behaviour-mismatch', lambda: f'{a.tolist()} vs {b.tolist()}')
+    # only equality of the two outcomes is judged here (result, or the type of the exception): whether
+    # force_reaction itself is right for this feed is C05's subject, not a pickling matter
+    def react(obj):
+        x = feed.copy()
+        try:
+            obj.force_reaction(x)
+        except Exception as e:
+            ctx.cell('p:rxn:react-raised:' + type(e).__name__)
+            return 'exc:' + type(e).__name__
+        return x.tolist()
+    a = react(r); b = react(o)
+    ctx.check(a == b, f'pickle.reaction|{region}|behaviour-mismatch', lambda: f'{a} vs {b}')
     # independence: changing the conversion of the unpickled object leaves the original alone
     if cls != 'ReactionSystem':
         o.X = np.asarray(o.X) * 0.5
